@@ -63,6 +63,10 @@ func init() {
 		case "backend":
 			c.Note("backend-panic-propagated")
 		}
+		if r.Svc.Spin {
+			c.Fail("C11.backend-read-never-ends", "the request body handed to the backend never reports EOF or an error (a handler that reads to the end is wedged)\nscenario: %s", desc)
+			return
+		}
 		if r.Svc.Direct {
 			c.Outcome("pass-through")
 			c.Note("pass-through")
